@@ -70,7 +70,7 @@ def run(rep, tier, seed):
     keys = [(d, c) for d in docs for c in cfgs]
     # T measured by fresh library processes (one process per key batch)
     cases = [{"k": f"t{j}", "xml": d, "cfg": c} for j, (d, c) in enumerate(keys)]
-    tres = vlib._run_chunk(vlib.build_runner(), cases, 60000, 4096)
+    tres = vlib.run_isolated(cases)      # one fresh process per key: T has no history
     events = []
     T = {}
     for j, (d, c) in enumerate(keys):
